@@ -937,6 +937,75 @@ def rule_bp6(prog):
                         r.ok()
     return r
 
+# ---------------------------------------------------------------------------
+# R-BP-7  taking the first statement of the parsed text is protected
+# ---------------------------------------------------------------------------
+
+def rule_bp7(prog, seeds):
+    """`ast.parse(text)` of an empty / blank / comment-only text has no
+    statement: `.body[0]` raises IndexError.  The readers must turn that into
+    SyntaxError (non-Boolean syntax), i.e. the positional access sits in a
+    handler that catches it and raises SyntaxError, or is preceded by a test
+    of the list"""
+    r = RuleResult('R-BP-7', 'the first statement of the parsed text is '
+                   'taken under a handler / test that yields SyntaxError')
+    n = 0
+    for f in seeds:
+        parses = [c for c in ast.walk(f.node) if isinstance(c, ast.Call) and
+                  ast.unparse(c.func) in ('ast.parse', 'parse')]
+        if not parses:
+            continue
+        tries = [t for t in ast.walk(f.node) if isinstance(t, ast.Try)]
+        ifs = [i for i in ast.walk(f.node) if isinstance(i, ast.If)]
+        for sub in ast.walk(f.node):
+            if not (isinstance(sub, ast.Subscript) and
+                    isinstance(sub.slice, ast.Constant) and
+                    isinstance(sub.slice.v if hasattr(sub.slice, 'v')
+                               else sub.slice.value, int) and
+                    isinstance(sub.ctx, ast.Load) and
+                    ast.unparse(sub.value).endswith('.body')):
+                continue
+            n += 1
+            prot = None
+            for t in tries:
+                if any(sub is m for b in t.body for m in ast.walk(b)):
+                    caught = []
+                    raises_syntax = False
+                    for h in t.handlers:
+                        ts = [] if h.type is None else (
+                            h.type.elts if isinstance(h.type, ast.Tuple)
+                            else [h.type])
+                        caught.extend(['BaseException'] if h.type is None
+                                      else [ast.unparse(x).split('.')[-1]
+                                            for x in ts])
+                        raises_syntax = raises_syntax or any(
+                            isinstance(m, ast.Raise) and m.exc is not None
+                            and 'SyntaxError' in ast.unparse(m.exc)
+                            for m in ast.walk(h))
+                    if raises_syntax and any(
+                            c in ('BaseException', 'Exception', 'IndexError',
+                                  'LookupError') for c in caught):
+                        prot = 'handler'
+            if prot is None:
+                base = ast.unparse(sub.value)
+                for i in ifs:
+                    if i.lineno < sub.lineno and base in ast.unparse(i.test):
+                        prot = 'test'
+            r.inst(function=f.short(), access=ast.unparse(sub),
+                   line=sub.lineno, protected_by=prot)
+            if prot:
+                r.ok()
+            else:
+                r.fail(Finding(
+                    PROP, 'R-BP-7', '%s:%d' % (f.module.relpath, sub.lineno),
+                    f.short(), 'first-statement:%s' % f.name,
+                    '%s takes `%s` without a handler or a test: for a text '
+                    'without any statement (empty, blanks, a comment) this '
+                    'raises IndexError instead of SyntaxError' % (
+                        f.short(), ast.unparse(sub))))
+    floor('R-BP-7', 'positional accesses to the parsed body', n, 2)
+    return r
+
 
 def _documented_node_fields(prog, rule):
     """the rules below address the fields of a node by the names the
@@ -963,6 +1032,7 @@ def run(prog, tier, seed):
     r4 = T(rule_bp4, prog)
     r5 = T(rule_bp5, prog, funcs, seeds)
     r6 = T(rule_bp6, prog)
+    r7 = T(rule_bp7, prog, seeds)
     expl = ('The expression parser of the OBDD module is interpreted '
             'abstractly per function: every path returns an OBDD-valued '
             'expression or raises SyntaxError (no fall-through None); the '
@@ -996,5 +1066,5 @@ def run(prog, tier, seed):
         return out
     dep = dep + adopt(T.results(T(_hashcons, prog)), PROP,
                       'one node per (variable, low, high)')
-    return T.results(r1, r2, r2b, r3, r4, r5, r6) + dep, expl, \
+    return T.results(r1, r2, r2b, r3, r4, r5, r6, r7) + dep, expl, \
         assumptions, T.extra()
